@@ -1,4 +1,6 @@
 """C11 Step-size adaptation follows dual averaging, frozen outside adaptation (Engine B, real mode)."""
+import copy
+
 import jax
 import jax.numpy as jnp
 import numpy as np
@@ -100,6 +102,74 @@ def kernel_encs(chk, kind, tune=True):
     return k, sks, et, tie, e_tr, e_st, e_en, rec
 
 
+def glue_enc(chk, kind):
+    """_adaptive_transition with the kernel's own _standard_transition re-bound to a verif_stub: error code, acceptance
+    probability and moved flag of the inner transition are arbitrary (in particular error codes != 0, which real
+    arithmetic cannot produce through NaN)"""
+    from liesel.goose.kernel import TransitionOutcome
+    from .. import stubs
+    k = K.make_kernel(kind)
+    ks0 = K.example_kernel_state(kind, k)
+    real_std = k._standard_transition
+
+    def fake_std(key, ks, ms, epoch):
+        def real(ss):
+            out = real_std(key, ks, ms, epoch)
+            return dict(err=jnp.asarray(out.info.error_code, jnp.int32), acc=jnp.asarray(out.info.acceptance_prob, jnp.float32), moved=jnp.asarray(out.info.position_moved))
+        o = stubs.stub(f"{kind}_standard_transition", (ks.step_size,), dict(err=jnp.array(0, jnp.int32), acc=jnp.zeros(()), moved=jnp.array(False)), real=real)
+        info = jax.eval_shape(lambda: real_std(key, ks, ms, epoch)).info
+        info = type(info)(**{**{f: jnp.zeros(v.shape, v.dtype) for f, v in vars(info).items()}, "error_code": o["err"], "acceptance_prob": o["acc"], "position_moved": o["moved"]})
+        return TransitionOutcome(info, ks, ms)
+
+    def adaptive(key, ks, st, tie):
+        k._standard_transition = fake_std
+        try:
+            out = k._adaptive_transition(key, ks, st, K.epoch_state(1, tie))
+        finally:
+            k._standard_transition = real_std
+        return dict(ks=out.kernel_state, acc=out.info.acceptance_prob, err=out.info.error_code)
+    name = f"{kind}_glue"
+    key = jax.random.PRNGKey(0)
+    sks = symlike(ks0, f"{name}_ks")
+    sst = symlike(K.STATE_AB, f"{name}_st")
+    tie = z3.Int(f"{name}_tie")
+    dom = {f"{name}_ks_step_size": (0.1, 1.5), f"{name}_tie": (0, 9), f"{name}_st_w": (0.5, 2)}
+    enc = chk.note_enc(Enc(f"{name}._adaptive_transition", adaptive, (key, ks0, K.STATE_AB, 0), (root_key("k"), sks, sst, sc(tie)), key_roots={"k": key}, domain=dom))
+    return k, sks, tie, enc
+
+
+def glue_replay(kind, k):
+    """confirmation on the un-stubbed kernel: a state whose log-probability is NaN gives error code 90 and reported acceptance
+    probability 0; the kernel state after the adaptive transition must be the dual-averaging step with exactly that value"""
+    def replay(ob, model, rng):
+        ks0 = K.example_kernel_state(kind, k)
+        worst = None
+        for bad in (True, False):
+            for tie in (0, 3):
+                st = dict(K.STATE_AB)
+                if bad:
+                    st["w"] = jnp.array(jnp.nan)
+                ks = copy.copy(ks0)
+                ks.step_size = jnp.asarray(ks0.step_size, jnp.float32)
+                ks.error_sum, ks.log_avg_step_size, ks.mu = jnp.asarray(0.2), jnp.asarray(-0.3), jnp.asarray(0.4)
+                ss = float(ks.step_size)
+                out = k._adaptive_transition(jax.random.PRNGKey(int(rng.integers(1 << 30))), ks, st, K.epoch_state(1, tie))
+                acc, err = float(out.info.acceptance_prob), int(out.info.error_code)
+                m = tie + 1.0
+                H = 0.2 + (k.da_target_accept - acc)
+                x = 0.4 - (np.sqrt(m) / k.da_gamma) / (m + k.da_t0) * H
+                eta = m ** (-k.da_kappa)
+                want = dict(step_size=np.exp(x), error_sum=H, log_avg_step_size=eta * x + (1 - eta) * (-0.3), mu=0.4)
+                got = {f: float(getattr(out.kernel_state, f)) for f in FIELDS}
+                dev = max(abs(got[f] - want[f]) / (1 + abs(want[f])) for f in FIELDS)
+                if worst is None or dev > worst[0]:
+                    worst = (dev, dict(nan_log_prob=bad, time_in_epoch=tie, step_size=ss), dict(error_code=err, acceptance_prob=acc, got=got, dual_averaging_step=want))
+        return dict(reproduced=bool(worst[0] > 1e-3), inputs=worst[1], observed=worst[2],
+                    note="un-stubbed kernel: tuning state after an adaptive transition differs from the dual-averaging step with the reported acceptance probability" if worst[0] > 1e-3
+                    else "un-stubbed kernel agrees with the dual-averaging step at the tried states (NaN and regular log-probability)")
+    return replay
+
+
 def ksd(ks):
     return {f: cells(getattr(ks, f))[0] for f in FIELDS}
 
@@ -174,6 +244,19 @@ def main():
             o = V.out
             return rng_ok, z3.And(cells(o.step_size)[0] == V.exp(kin["log_avg_step_size"]), *[all_eq(getattr(o, f), getattr(sks, f)) for f in other])
         obs.append(Obligation(f"{nm}: end_epoch makes the averaged step size the kernel's step size", [e_en], end_goal, signature=f"{nm}:end"))
+    # error-coded inner transitions: the dual-averaging step must use the reported acceptance probability whatever the error code
+    for kind in ("rw", "mh", "iwls"):
+        k, sks, tie, enc = glue_enc(chk, kind)
+        kin = ksd(sks)
+        other = [f for f in sks.__dict__ if f not in FIELDS]
+
+        def glue_goal(V, kin=kin, sks=sks, other=other, tie=tie, k=k):
+            o = V.out["ks"]
+            acc = cells(V.out["acc"])[0]
+            want = hg_recurrence(V, kin, acc, tie, V.c(np.float32(k.da_target_accept)), V.c(np.float32(k.da_gamma)), V.c(np.float32(k.da_kappa)), k.da_t0)
+            return [tie >= 0, kin["step_size"] > 0], z3.And(*[cells(getattr(o, f))[0] == want[f] for f in FIELDS], *[all_eq(getattr(o, f), getattr(sks, f)) for f in other])
+        obs.append(Obligation(f"{type(k).__name__}: adaptive transition = inner transition (arbitrary error code / acceptance probability / moved flag) followed by one dual-averaging step with the reported acceptance probability",
+                              [enc], glue_goal, signature=f"{type(k).__name__}:adapts-any-error-code", replay=glue_replay(kind, k)))
     if chk.tier != "quick" or True:
         # MH kernel with tuning off: never adapts
         k, sks, et, tie, e_tr, e_st, e_en, rec = kernel_encs(chk, "mh", tune=False)
